@@ -192,6 +192,7 @@ func (p *Program) houdini(vc *VC, cfg *CheckConfig, rep *FuncReport) error {
 		fast := *cfg
 		fast.Timeout = 3
 		fast.Tier = "quick"
+		fast.NoRetry = true
 		vc.lightAssemble = true
 		results := solveAll(vc, axioms, todo, &fast)
 		vc.lightAssemble = false
@@ -359,6 +360,7 @@ func (p *Program) InferVariants(fn *ssa.Function, cfg *CheckConfig) map[int]stri
 				}
 				fast := *cfg
 				fast.Timeout = 3
+				fast.NoRetry = true
 				res := solveAll(vc2, ax, todo, &fast)
 				ok = len(res) > 0
 				for _, r := range res {
